@@ -80,6 +80,7 @@ def _m1(quick):
         (),
         (('app+', 'id', True), ('app+', 'id', True)),
         (('app+', 'sm', True), ('app+', 'hi', True), ('app+', 'hi', True)),
+        (('app+', 'sm', True), ('app+', 'sm', True), ('app+', 'sm', True)),
     ]
     cfg['events'] = mastercfg.ev(
         ('app+', 'sm'), ('app+', 'id'), ('app+', 'hi'), ('app+', 'on'),
